@@ -3,9 +3,13 @@
 
     tzgen.ical.offset <hex>                         Gen.tzical_parseOffset
     tzgen.ical.seq <comps> <us:fold;us:fold;…>      a FRESH zone queried in this order through the translated
-                                                    `_find_comp` (cache threaded): per query `idx?,from,to,isdst,utcoff,dst`
+                                                    `_find_comp` (cache threaded): per query `from/to/isdst,utcoff,dst,tzname` (components named by their offsets)
                                                     (µs), then the final cache `us:fold,…|from/to/isdst,…`
                                                     (datetimes are µs since ordinal 0, as the onsets × 10^6)
+    tzgen.local.wall <std> <dst> <hasdst> <table> [us…] <stdabbr hex> <dstabbr hex>   the translated tzlocal methods:
+                                                    amb;naive,isdst,off,dst,name;naive,isdst,off,dst,name (fold 0 ; fold 1)
+    tzgen.range.fromutc_pub <std> <dst> <hasdst> <table> [us…] <attached 0|1>   the PUBLIC fromutc: translated decorator
+                                                    `_validate_fromutc_inputs` around the translated `tzrangebase.fromutc`
     tzgen.str.init <posix> <hex>                    Gen.tzstr_init, printed like tz.zone
     tzgen.str.trans <posix> <hex> <year>            Gen.tzrange_transitions on it
     tzgen.str.delta <std> <dst> <isend> <month> <week> <weekday> <yday> <jyday> <day> <time>   Gen.tzstr_delta
@@ -14,6 +18,7 @@
 -/
 import DateutilVerif.Ops.ICal
 import DateutilVerif.Ops.TzStr
+import DateutilVerif.Ops.TzGen
 import DateutilVerif.Generated.TzObjKernels
 
 namespace Ops.TzObjGen
@@ -38,8 +43,13 @@ def runSeq (comps : List ICal.ZComp) (qs : List (Int × Bool)) : String :=
     let st := acc.2
     let uo := showTd (Gen.tzicalvtz_utcoffset comps st.1 st.2 d)
     let ds := showTd (Gen.tzicalvtz_dst comps st.1 st.2 d)
+    -- the TZNAME of a component: the validation names every component by its offsets
+    let nm := match Gen.tzicalvtz_tzname comps (fun c => some (showComp (some c)).toList) st.1 st.2 d with
+      | .ok (some n, _, _) => String.ofList n
+      | .ok (none, _, _) => "-"
+      | .error e => "!" ++ e.name
     match Gen.tzicalvtz_findComp comps st.1 st.2 d with
-    | .ok (c, cd, cc) => (acc.1 ++ [s!"{showComp c},{uo},{ds}"], (cd, cc))
+    | .ok (c, cd, cc) => (acc.1 ++ [s!"{showComp c},{uo},{ds},{nm}"], (cd, cc))
     | .error e => (acc.1 ++ ["!" ++ e.name], st)) ([], ([], []))
   "ok " ++ " ".intercalate outs ++ " cache=" ++ ",".intercalate (st.1.map fun k => s!"{k.1.us}:{k.2}") ++ "|" ++
     ",".intercalate (st.2.map showComp)
@@ -73,8 +83,25 @@ def rangeInit? (a : List String) : Option (Py.R TzStr.Zone) :=
     some (match r with | .ok t => .ok (zoneOf t) | .error e => .error e)
   | _ => none
 
+def localWall (z : TZ.RangeZone) (us : Int) : String :=
+  let f (fold : Bool) : String :=
+    let d : DtPy.Dt := { us, fold, attached := false }
+    s!"{Ops.Zones.showRInt (Gen.tzlocal_naiveIsDst z d)},{Ops.Zones.showRInt (Gen.tzlocal_isdst z d true)}," ++
+    s!"{Ops.Zones.showRInt (Gen.tzlocal_utcoffset z d)},{Ops.Zones.showRInt (Gen.tzlocal_dst z d)}," ++
+    s!"{Ops.TzGen.showRStr (Gen.tzlocal_tzname z d)}"
+  s!"{Ops.Zones.showRBool (Gen.tzlocal_isAmbiguous z { us, fold := false, attached := false })};{f false};{f true}"
+
 def handle (op : String) (args : List String) : Option String :=
   match op, args with
+  | "tzgen.range.fromutc_pub", [s, d, h, tbl, xs, att] => do
+      let (z, ts) ← Ops.Zones.rangeOf [s, d, h, tbl, xs]
+      pure ("ok " ++ " ".intercalate (ts.map fun us => Ops.TzGen.showRDt
+        (Gen.validateFromutcInputs (Gen.tzrange_fromutc z) { us, fold := false, attached := att == "1" })))
+  | "tzgen.local.wall", [s, d, h, tbl, xs, sa, da] => do
+      let (z, ws) ← Ops.Zones.rangeOf [s, d, h, tbl, xs]
+      let sa ← parseHexBytes? sa; let da ← parseHexBytes? da
+      let z := { z with stdAbbr := sa, dstAbbr := da }
+      pure ("ok " ++ " ".intercalate (ws.map (localWall z)))
   | "tzgen.ical.offset", [h] => do
       let s ← parseHexString? h
       some (Py.showR showInt (Gen.tzical_parseOffset s.toList))
